@@ -64,7 +64,7 @@ def run(chk):
         chk.violation("C08.balance", rc, "_read_nowait_chunk", "single `return data`", "the consumption primitive has several exits: accounting cannot be paired with the returned bytes")
     # partial read advances the offset by n, full read resets it
     off = [s for s, _b in K.stmts(rc, "self._buffer_offset += n")]
-    if off and PC.has_lit(PC.pc(off[0]), "len($F) - $O > n", True) is not None:
+    if off and PC.has_lit(PC.pc(off[0]), [("len($F) - $O > n", True), ("len($F) > n + $O", True), ("len($F) > $O + n", True), ("n < len($F) - $O", True), ("len($F) - $O <= n", False)], True) is not None:
         chk.ok("C08.balance", off[0], "a partial read of the front buffer advances the offset by exactly n")
     else:
         chk.violation("C08.balance", rc, "self._buffer_offset += n", "(len(first_buffer) - offset > n)", "partial reads do not advance the front-buffer offset consistently")
